@@ -133,6 +133,45 @@ def any_node(j, pred):
     return any(any_node(c, pred) for c in children(j))
 
 
+def fold_probe_docs(rj):
+    """*concrete* probe documents for trees that hold a regex: the solver's documents are ASCII and the regex model folds
+    ASCII case only, while `(?i)` in the regex crate folds Unicode (k ~ U+212A KELVIN SIGN, s ~ U+017F LONG S).  One
+    string field each, built from the alphanumeric runs of the pattern with those partners substituted."""
+    out, seen = [], set()
+
+    def walk(j):
+        if isinstance(j, dict):
+            if j.get('t') == 'Search' and isinstance(j.get('s'), dict):
+                s = j['s']
+                pats = []
+                if s.get('t') == 'Regex':
+                    pats = [bytes(s['p'])]
+                elif s.get('t') == 'RegexSet':
+                    pats = [bytes(p) for p in s.get('p', []) if isinstance(p, list)]
+                for p in pats:
+                    try:
+                        txt = p.decode('utf-8')
+                    except UnicodeDecodeError:
+                        continue
+                    run = ''.join(c for c in txt if c.isalnum())
+                    if not run or not any(c in 'ksKS' for c in run):
+                        continue
+                    sub = run.replace('k', '\u212a').replace('K', '\u212a').replace('s', '\u017f').replace('S', '\u017f')
+                    for v in (sub, sub + 'x', 'x' + sub, sub.upper(), run.upper(), run):
+                        key = (bytes(j['f']), v)
+                        if key not in seen:
+                            seen.add(key)
+                            out.append(({'$obj': [[j['f'], {'$str': list(v.encode('utf-8'))}]]}, 'unicode case folding of %r' % txt))
+            for v in j.values():
+                walk(v)
+        elif isinstance(j, list):
+            for v in j:
+                walk(v)
+    walk(rj.get('expr'))
+    walk(rj.get('idents'))
+    return out
+
+
 def probe_docs(rj):
     """documents derived from the bridge's engine-object probes: one string field each"""
     out = []
